@@ -144,6 +144,22 @@ def do_request(name, shared):
         return E.sympy, '__spin_i3a3', True, None
     elif name == 'norm4':
         r = mp.norm_factor(4)
+    elif name == 'real_ov2':
+        # real orbitals: complex-conjugate amplitudes (configured name + order +
+        # 'cc') are renamed
+        r, tg, real = isr.overlap_precursor(2, 'ph,ph', 'ia,jb'), 'iajb', True
+    elif name == 'spin_ov2':
+        x = Expr(isr.overlap_precursor(2, 'ph,ph', 'ia,jb'), real=True,
+                 target_idx='iajb')
+        x = transform_to_spatial_orbitals(x, 'iajb', 'aaaa', restricted=False)
+        x = x if hasattr(x, 'sympy') else Expr(x, real=True)
+        r, tg, real = x.sympy, '__spin_iajb', True
+    elif name == 'prec3s':
+        # bra precursor at third order with first-order singles: products of
+        # several imported wavefunctions of the same order
+        gs1 = GroundState(Operators('mp'), True)
+        r, tg = IntermediateStates(gs1, 'pp').precursor(3, 'ph', 'bra', 'ia'), \
+            '__ops_ia'
     elif name == 'itmd_p2':
         # a ground-state density tensor (configured name) times a free tensor,
         # expanded through the registered intermediates
@@ -251,15 +267,38 @@ def main():
     # results with orbital-energy denominators are not expanded: the target
     # indices can not be found by counting -> provide them
     spin_model = False
+    has_ops = False
     if tg == '__spin_i3a3':
         tgl = get_symbols(['i3', 'a3'], 'aa')
         spin_model = True
+    elif tg == '__spin_iajb':
+        tgl = get_symbols('iajb', 'aaaa')
+        spin_model = True
+    elif tg.startswith('__ops_'):
+        tgl = get_symbols(tg[6:])
+        has_ops = True
     else:
         tgl = get_symbols(tg) if tg else None
     E = Expr(r, real=real, target_idx=tgl)
+    # every summation index of a result occurs at most twice per term (counted
+    # with exponents): factors that wrongly share contracted indices show up as 4
+    tset = set(tgl or [])
+    for t_ in tm.terms_of(E.sympy.expand()):
+        cnt = tm.count_indices(t_)
+        bad = [s_ for s_, n_ in cnt.items() if n_ > 2 and s_ not in tset]
+        if bad:
+            clash.append(f'result of {request}: index {bad[0]} occurs '
+                         f'{cnt[bad[0]]} times in the term {t_}')
+            break
+    out['clashes'] = clash[:3]
     E = E.substitute_contracted()
     out['text'] = str(E)
     out['terms'] = len(E)
+    if has_ops:
+        out['value'] = None
+        out['term_values'] = []
+        print('JSON' + json.dumps(out))
+        return
     # value fingerprints on fixed models (names mapped for other configs)
     alias = dict(names.get('alias', {}))
     if real or True:
